@@ -22,6 +22,13 @@ def run(v, tier, seed, replay):
         gens = [proggen.make(r.fork(), "tree", {"adapters": i % 4 == 0, "cycle_density": 1 + i % 3, "threads": 1 + i % 3, "ops": 20 + r.below(80), "open_at_close": i % 2 == 1, "sleeps": i % 3 != 0}) for i in range(n)]
         cases = [g.lines for g in gens]
         specs = [g.s for g in gens]
+        # unit boundaries of the duration arithmetic: a local span and a thread-safe span open for more than
+        # one second (ns -> s carry) and more than 2^32 ns (a 32-bit truncation), with a nested span and an event
+        for us in (1_100_000, 4_400_000):
+            long = ["0 spawn", "0 setReporter 0", "0 root r 72 1 0 1", "0 scope r", "0 localEnter 6f", "0 sleep %d" % us, "0 localEnter 69", "0 close",
+                    "0 lAddEvent 65 none", "0 elapsed r", "0 close", "0 close", "0 drop r", "0 cycle", "0 stats"]
+            cases.append(long)
+            specs.append(proggen.spec_of(long))
     impl = seqrun.run_impl(cases, env={"FH_TIMES": "1"}) if ok else None
     model = seqrun.run_model(cases)
     fails, mism, nontriv, recs = [], [], set(), 0
